@@ -4,7 +4,7 @@ sys.path.insert(0, os.path.dirname(os.path.abspath(__file__)))
 import framework
 from framework import run_property
 import bbs_tables as T
-import rf_hash, rf_gates, rf_consts, rf_panic, rf_frame, rf_rand, rf_codec, rf_bits, rf_accept, rf_gatesets
+import rf_hash, rf_gates, rf_consts, rf_panic, rf_frame, rf_rand, rf_codec, rf_bits, rf_accept, rf_gatesets, rf_errors
 import cl03_rules as CL
 
 CL03_FS_SCOPE = ('cl03::sigma_protocols::NISP2', 'cl03::sigma_protocols::NISPSecrets', 'cl03::sigma_protocols::NISPMulti')
@@ -45,6 +45,7 @@ def P(pid):
                                'from sign and verify (necessary for agreement), ciphersuite constant table. The pairing algebra is not decided.')
     elif pid == 'C02':
         R = [
+            ('RF-Y failures of fallible operations are never discarded', rf_errors.rule_errors_not_discarded, 60),
             ('RF-B pass-through arguments keep their role', rf_consts.rule_argument_roles, 40),
             ('RF-B message lists handed down whole', rf_consts.rule_list_integrity, 15),
             ('RF-C octet-string ingredients are hashed whole', rf_hash.rule_whole_ingredients, 9),
@@ -62,6 +63,7 @@ def P(pid):
                                'messages, header and the interface constants in its data-dependence slice. Collision resistance is assumed.')
     elif pid == 'C04':
         R = [
+            ('RF-Y failures of fallible operations are never discarded', rf_errors.rule_errors_not_discarded, 60),
             ('RF-B pass-through arguments keep their role', rf_consts.rule_argument_roles, 40),
             ('RF-B message lists handed down whole', rf_consts.rule_list_integrity, 15),
             ('RF-C octet-string ingredients are hashed whole', rf_hash.rule_whole_ingredients, 9),
@@ -78,6 +80,7 @@ def P(pid):
                                'on every constructor path. Knowledge soundness of the sigma protocol itself is not decided.')
     elif pid == 'C06':
         R = [
+            ('RF-Y failures of fallible operations are never discarded', rf_errors.rule_errors_not_discarded, 60),
             ('RF-B pass-through arguments keep their role', rf_consts.rule_argument_roles, 40),
             ('RF-B message lists handed down whole', rf_consts.rule_list_integrity, 15),
             ('RF-C blind challenge ingredients', lambda c: rf_hash.rule_hash_binding(c, rf_hash.BBS_TABLE, BBS_SCOPE,
@@ -93,6 +96,7 @@ def P(pid):
                                'blind verification gates depend on committed messages, signer messages, blind factor, L, header, ph, pk.')
     elif pid == 'C11':
         R = [
+            ('RF-Y failures of fallible operations are never discarded', rf_errors.rule_errors_not_discarded, 60),
             ('RF-B interface constants (all entry points)', rf_consts.rule_interface_constants, 40),
             ('RF-A absent == empty in every function of the layer', rf_consts.rule_option_normalisation_all, 50),
             ('A5 ciphersuite constants', rf_consts.rule_ciphersuite_constants, 30),
@@ -181,6 +185,7 @@ def P(pid):
         meta['assumptions'] = ['slice/Vec lengths are bounded by isize::MAX / size_of(element)', 'external crates do not panic on the paths used (contracts in audit.py)']
     elif pid == 'C09':
         R = [
+            ('RF-Y failures of fallible operations are never discarded', rf_errors.rule_errors_not_discarded, 60),
             ('RF-E decoder framing', rf_frame.rule_decoder_framing, 7),
             ('RF-D identity / zero exclusion in decoders', lambda c: rf_gates.rule_accept_requirements(c, T.DECODER_REQS), 6),
             ('RF-D checked constructors only', rf_frame.rule_checked_constructors, 8),
